@@ -478,6 +478,26 @@ func Judge(sc *Scenario, tr *Trace) ([]pbt.Violation, Stats) {
 		}
 	}
 
+	// ---- every attempt of one flush carries the list frozen at the flush (alerts do not change state while retrying)
+	for i := range tr.Attempts {
+		a := &tr.Attempts[i]
+		f := firstOfFlush[flushKey{a.AggrGroupID, a.FlushID, a.Receiver, a.Idx}]
+		if f == nil || f == a {
+			continue
+		}
+		same := len(f.Alerts) == len(a.Alerts)
+		if same {
+			for j := range f.Alerts {
+				if f.Alerts[j].Key != a.Alerts[j].Key || f.Alerts[j].Resolved != a.Alerts[j].Resolved {
+					same = false
+				}
+			}
+		}
+		if !same {
+			add(pbt.V("resolved-not-true", "attempt at %s of the flush of %s begun at %s lists %v, the first attempt listed %v: the notification content changed while retrying", a.T.Format(tf), a.GroupKey, a.Flush.Format(tf), a.Alerts, f.Alerts))
+		}
+	}
+
 	// ---- C04 "only if" (A.9) over consecutive successful deliveries
 	stateLoss := func(t1, t2 time.Time) bool {
 		for _, r := range m.Restarts {
@@ -527,6 +547,8 @@ func Judge(sc *Scenario, tr *Trace) ([]pbt.Violation, Stats) {
 			prev = a
 		}
 	}
+	vs = append(vs, judgeObligations(m, seqs, sendResolvedOf, &st)...)
+	vs = append(vs, judgeAPI(m, &st)...)
 	return vs, st
 }
 
